@@ -67,6 +67,10 @@ def finalize(agg, tier):
     for cv in NIST + EDW + MONT:
         need("random_rounds:" + cv)
         need("grid_done:" + cv)
+        need("histories:" + cv)
+        need("history_observations:" + cv)
+        need("op:%s:history-set" % cv)
+        need("op:%s:history-imul" % cv)
     for cv in NIST + EDW:
         for rel in RELATIONS:
             need("case:%s:%s" % (cv, rel))
@@ -870,6 +874,130 @@ class PointFamily(object):
             self.op_eq(e, self.other_route(e))
             self.op_eq(e, self.other_route(e), ne=True)
 
+
+    def op_history(self, ents):
+        """ONE object driven through a history of in-place operations (+=, *=, double(), set()) with observations
+        (coordinates, copy, negation, sums, multiples, comparisons, neutrality) in between: after every step the object must
+        denote the model point, whatever was read from it or done to it before."""
+        ctx, rng, name = self.ctx, self.rng, self.name
+        a = rng.choice(ents)
+        W = self.fresh(a)
+        if W is None:
+            return
+        m = a.m
+        steps = []
+        last = "fresh"
+        ctx.count("histories:" + name)
+        w = lambda: {"curve": name, "start": {"class": a.cls, "route": a.route, "xy": hexpt(self.conv(a.m))}, "steps": list(steps),
+                     "model_now": hexpt(self.conv(m))}
+
+        def small_or_random_scalar():
+            return rng.choice([0, 1, 2, 3, rng.randrange(self.c.n), rng.randrange(1 << 64), self.c.n, self.c.n - 1])
+
+        for _ in range(rng.choice([3, 5, 8, 12])):
+            r = rng.random()
+            if r < 0.45:
+                # ---- mutation
+                kind = rng.choice(["iadd", "imul", "double", "set", "set", "set"])
+                ctx.case((name, "history", kind, "after", last))
+                if kind == "iadd":
+                    s_m = rng.choice([self.rand_kG()[1], self.rand_kG()[1], m, self.m_neg(m), self.O])
+                    S = self.lib(s_m)
+
+                    def f():
+                        X = W
+                        X += S
+                        return X
+                    steps.append(("iadd", hexpt(self.conv(s_m))))
+                    new = self.m_add(m, s_m)
+                elif kind == "imul":
+                    k = small_or_random_scalar()
+
+                    def f():
+                        X = W
+                        X *= k
+                        return X
+                    steps.append(("imul", hex(k)))
+                    new = self.m_mul(k, m)
+                elif kind == "double":
+                    f = W.double
+                    steps.append(("double",))
+                    new = self.m_dbl(m)
+                else:
+                    t_ent = rng.choice(ents)
+                    T = self.fresh(t_ent)
+                    if T is None:
+                        continue
+                    touch = rng.random() < 0.5
+                    if touch:
+                        xy_of(T)                        # the source may have been read before as well
+
+                    def f():
+                        r_ = W.set(T)
+                        T.double()                      # set() copies: what happens to the source later is irrelevant
+                        return r_
+                    steps.append(("set", hexpt(self.conv(t_ent.m))))
+                    new = t_ent.m
+                out = outcome(f)
+                self._count("history-" + kind)
+                if out[0] == "exc":
+                    ctx.check(False, "ec:%s:history:%s-raised-%s" % (name, kind, type(out[1]).__name__),
+                              "an in-place operation raised on valid operands in the middle of an object's history",
+                              lambda: dict(w(), exc=repr(out[1])))
+                    return
+                ctx.check(out[1] is W, "ec:%s:history:%s-does-not-return-the-object" % (name, kind),
+                          "an in-place operation did not return the object it was applied to", w)
+                m = new
+                last = kind
+            else:
+                # ---- observation
+                kind = rng.choice(["xy", "xy", "x", "y", "is_pai", "copy", "neg", "add", "mul", "eq"])
+                ctx.case((name, "history", kind, "after", last))
+                steps.append((kind,))
+                self._count("history-" + kind)
+                exp_m = m
+                if kind == "xy":
+                    got = outcome(lambda: xy_of(W))
+                elif kind == "x":
+                    got = outcome(lambda: (int(W.x), self.conv(m)[1]))
+                elif kind == "y":
+                    got = outcome(lambda: (self.conv(m)[0], int(W.y)))
+                elif kind == "copy":
+                    got = outcome(lambda: xy_of(W.copy()))
+                elif kind == "neg":
+                    got = outcome(lambda: xy_of(-W))
+                    exp_m = self.m_neg(m)
+                elif kind == "add":
+                    s_m = self.rand_kG()[1]
+                    S = self.lib(s_m)
+                    got = outcome((lambda: xy_of(W + S)) if rng.random() < 0.5 else (lambda: xy_of(S + W)))
+                    exp_m = self.m_add(m, s_m)
+                elif kind == "mul":
+                    k = small_or_random_scalar()
+                    steps[-1] = ("mul", hex(k))
+                    got = outcome(lambda: xy_of(W * k))
+                    exp_m = self.m_mul(k, m)
+                elif kind == "is_pai":
+                    got = outcome(lambda: bool(W.is_point_at_infinity()))
+                    ctx.check(got == ("ok", m == self.O), "ec:%s:history:is_point_at_infinity-wrong-after-%s" % (name, last),
+                              "is_point_at_infinity() of an object with a history disagrees with the model",
+                              lambda: dict(w(), got=repr(got[1])))
+                    ctx.count("history_observations:" + name)
+                    continue
+                else:
+                    other_m = self.rand_kG()[1]
+                    got = outcome(lambda: (W == self.lib(m), W == self.lib(other_m), self.lib(m) == W))
+                    ctx.check(got == ("ok", (True, other_m == m, True)), "ec:%s:history:eq-wrong-after-%s" % (name, last),
+                              "== of an object with a history disagrees with the model", lambda: dict(w(), got=repr(got[1])))
+                    ctx.count("history_observations:" + name)
+                    continue
+                ctx.count("history_observations:" + name)
+                ctx.check(got == ("ok", self.conv(exp_m)), "ec:%s:history:%s-wrong-after-%s" % (name, kind, last),
+                          "an observation of an object with a history differs from the exact group-law value "
+                          "(stale or shared state inside the object)",
+                          lambda: dict(w(), observation=kind, expected=hexpt(self.conv(exp_m)),
+                                       got=hexpt(got[1]) if got[0] == "ok" else repr(got[1])))
+
     def run(self, spec):
         run_phases(self, spec)
 
@@ -882,6 +1010,10 @@ class PointFamily(object):
             for _ in range(80):
                 if stop():
                     break
+                r = rng.random()
+                if r < 0.05:
+                    self.op_history(ents)
+                    continue
                 r = rng.random()
                 if r < 0.42:
                     q = rng.random()
@@ -1242,6 +1374,97 @@ class XFamily(object):
             self.op_is_pai(a)
             self.op_pai(a)
 
+
+    def op_history(self, ents):
+        """ONE EccXPoint driven through *=, set() with observations (x, neutrality, copy, multiples, ==) in between.
+        Operands of order 1, 2, 4 (and non-canonical encodings) are left to the single-operation cases."""
+        ctx, rng, name = self.ctx, self.rng, self.name
+        reg = [e for e in ents if e.m is not None and e.m not in self.lowset and not e.cls.startswith("noncanonical")]
+        if not reg:
+            return
+        a = rng.choice(reg)
+        W = self.fresh(a)
+        if W is None:
+            return
+        m = a.m
+        steps = []
+        last = "fresh"
+        ctx.count("histories:" + name)
+        w = lambda: {"curve": name, "start": {"class": a.cls, "route": a.route, "u": hexpt(a.m)}, "steps": list(steps),
+                     "model_now": hexpt(m)}
+        scalar = lambda: rng.choice([1, 2, 3, rng.randrange(1, self.c.n), rng.randrange(1, 1 << 64), self.c.n - 1, self.c.n + 1])
+        for _ in range(rng.choice([3, 5, 8])):
+            if m is None or m in self.lowset:
+                return
+            if rng.random() < 0.45:
+                kind = rng.choice(["imul", "set", "set"])
+                ctx.case((name, "history", kind, "after", last))
+                if kind == "imul":
+                    k = scalar()
+
+                    def f():
+                        X = W
+                        X *= k
+                        return X
+                    steps.append(("imul", hex(k)))
+                    new = self.m_mul(k, m)
+                else:
+                    t_ent = rng.choice(reg)
+                    T = self.fresh(t_ent)
+                    if T is None:
+                        continue
+                    if rng.random() < 0.5:
+                        self.readx(T)
+
+                    def f():
+                        r_ = W.set(T)
+                        X = T
+                        X *= 2
+                        return r_
+                    steps.append(("set", hexpt(t_ent.m)))
+                    new = t_ent.m
+                out = outcome(f)
+                self._count("history-" + kind)
+                if out[0] == "exc":
+                    ctx.check(False, "ec:%s:history:%s-raised-%s" % (name, kind, type(out[1]).__name__),
+                              "an in-place operation raised on valid operands in the middle of an object's history",
+                              lambda: dict(w(), exc=repr(out[1])))
+                    return
+                ctx.check(out[1] is W, "ec:%s:history:%s-does-not-return-the-object" % (name, kind),
+                          "an in-place operation did not return the object it was applied to", w)
+                m = new
+                last = kind
+            else:
+                kind = rng.choice(["x", "x", "copy", "mul", "eq", "is_pai"])
+                ctx.case((name, "history", kind, "after", last))
+                steps.append((kind,))
+                self._count("history-" + kind)
+                ctx.count("history_observations:" + name)
+                exp = m
+                if kind == "x" or kind == "is_pai":
+                    got = self.readx(W)
+                elif kind == "copy":
+                    r_ = outcome(lambda: W.copy())
+                    got = self.readx(r_[1]) if r_[0] == "ok" else r_
+                elif kind == "mul":
+                    k = scalar()
+                    steps[-1] = ("mul", hex(k))
+                    exp = self.m_mul(k, m)
+                    if exp is None or exp in self.lowset:
+                        continue
+                    r_ = outcome(lambda: W * k)
+                    got = self.readx(r_[1]) if r_[0] == "ok" else r_
+                else:
+                    other = rng.choice(reg)
+                    r_ = outcome(lambda: (W == self.X(m, name), W == self.X(other.m, name)))
+                    ctx.check(r_ == ("ok", (True, other.m == m)), "ec:%s:history:eq-wrong-after-%s" % (name, last),
+                              "== of an object with a history disagrees with the model", lambda: dict(w(), got=repr(r_[1])))
+                    continue
+                ctx.check(self.matches(got, exp), "ec:%s:history:%s-wrong-after-%s" % (name, kind, last),
+                          "an observation of an object with a history differs from the exact x-only value "
+                          "(stale or shared state inside the object)",
+                          lambda: dict(w(), observation=kind, expected=hexpt(exp), got=repr(got)))
+
     def run(self, spec):
         run_phases(self, spec)
 
@@ -1253,6 +1476,10 @@ class XFamily(object):
             for _ in range(60):
                 if stop():
                     break
+                r = rng.random()
+                if r < 0.05:
+                    self.op_history(ents)
+                    continue
                 r = rng.random()
                 if r < 0.6:
                     a = rng.choice(ents)
